@@ -25,7 +25,7 @@ RULES_DOC.update({
     "R5": "blocking arms of the wait functions are left only after observing READY (or through the timeout label)",
     "R6": "ABT_cond_timedwait returns ABT_ERR_COND_TIMEDOUT iff is_timedout",
 })
-VARIANTS = ["active_wait", "no_ext_thread", "no_linux_futex", "simple_mutex"]
+VARIANTS = ["active_wait", "no_ext_thread", "no_linux_futex", "simple_mutex", "tool_interface"]
 
 WAITLIST_H = "src/include/abti_waitlist.h"
 CLOCK = "ABTI_cond::lock"
